@@ -285,6 +285,7 @@ static void upipe_m3u_reader_flush(struct upipe *upipe)
         upipe_m3u_reader_from_upipe(upipe);
 
     uref_free(upipe_m3u_reader->current_flow_def);
+    upipe_m3u_reader->current_flow_def = NULL;
     uref_free(upipe_m3u_reader->item);
     upipe_m3u_reader->item = NULL;
 
